@@ -442,8 +442,16 @@ class Gen:
         self.features.add("pointer")
 
     def op_read(self):
-        lo = self.r.randrange(0, self.last + 2)
+        # half of the reads are those of a replication stream: each starts where the previous one ended (also when a truncation
+        # and re-appends of other sizes happened in between)
+        cur = getattr(self, "cursor", None)
+        if cur is not None and self.r.random() < 0.5:
+            lo = cur
+            self.features.add("sequential-read")
+        else:
+            lo = self.r.randrange(0, self.last + 2)
         hi = lo + self.r.choice([1, 2, 5, 130, 1000])
+        self.cursor = min(hi, self.last + 1)
         self.ops.append({"op": "read", "lo": lo, "hi": hi})
 
     def generate(self, n_ops, reopen_p=0.04):
@@ -452,9 +460,9 @@ class Gen:
         for _ in range(n_ops):
             c = r.random()
             if self.bias == "truncate":
-                table = [(0.30, self.op_append), (0.50, self.op_batch), (0.78, self.op_delete), (0.83, self.op_pointer), (0.90, self.op_read)]
+                table = [(0.30, self.op_append), (0.50, self.op_batch), (0.78, self.op_delete), (0.83, self.op_pointer), (0.93, self.op_read)]
             else:
-                table = [(0.45, self.op_append), (0.65, self.op_batch), (0.73, self.op_delete), (0.78, self.op_pointer), (0.90, self.op_read)]
+                table = [(0.45, self.op_append), (0.65, self.op_batch), (0.73, self.op_delete), (0.78, self.op_pointer), (0.93, self.op_read)]
             for p, f in table:
                 if c < p:
                     f()
